@@ -22,6 +22,9 @@ Proof.
   rewrite <- E. now apply in_map.
 Qed.
 
+Lemma filter_K_true {A} (l : list A) : filter (fun _ => true) l = l.
+Proof. induction l as [|a l IH]; cbn; auto. now rewrite IH. Qed.
+
 Section Proofs.
 Context {V : Type} (v0 : V) (isz : V -> bool).
 Hypothesis isz_spec : forall v, isz v = true <-> v = v0.
@@ -173,5 +176,440 @@ Proof.
     rewrite <- vopp_0 at 1. apply last_match_map_snd.
 Qed.
 End Neg.
+
+
+(* ------------------------------------------------------------------------------------------ *)
+(* from_aggregator                                                                             *)
+(* ------------------------------------------------------------------------------------------ *)
+
+Lemma ins_sorted_perm i l : Permutation (ins_sorted i l) (i :: l).
+Proof.
+  induction l as [|j r IH]; cbn; auto. destruct (idx_ltb j i); auto.
+  rewrite IH. apply perm_swap.
+Qed.
+
+Lemma sort_rows_perm l : Permutation (sort_rows l) l.
+Proof. induction l as [|i l IH]; cbn; auto. rewrite ins_sorted_perm. now constructor. Qed.
+
+Lemma in_uniq_rows i l : In i (uniq_rows l) <-> In i l.
+Proof.
+  unfold uniq_rows. rewrite <- (nodup_In idx_dec l i). split; apply Permutation_in.
+  - apply sort_rows_perm.
+  - symmetry. apply sort_rows_perm.
+Qed.
+
+Lemma NoDup_uniq_rows l : NoDup (uniq_rows l).
+Proof.
+  unfold uniq_rows. eapply Permutation_NoDup; [symmetry; apply sort_rows_perm|]. apply NoDup_nodup.
+Qed.
+
+Lemma collect_app i (es1 es2 : list (idx * V)) : collect i (es1 ++ es2) = collect i es1 ++ collect i es2.
+Proof.
+  induction es1 as [|[j v] r IH]; cbn; auto. destruct (idx_eqb i j); cbn; now rewrite IH.
+Qed.
+
+Lemma collect_notin i (es : list (idx * V)) : ~ In i (map fst es) -> collect i es = [].
+Proof.
+  induction es as [|[j v] r IH]; cbn; auto. intros H.
+  rewrite idx_eqb_neq by (intro; subst; apply H; auto). apply IH. intros Hr. apply H. auto.
+Qed.
+
+Lemma collect_in i v (es : list (idx * V)) : NoDup (map fst es) -> In (i, v) es -> collect i es = [v].
+Proof.
+  induction es as [|[j w] r IH]; cbn; intros Hn Hin; [contradiction|].
+  inversion Hn as [|? ? Hj Hn']; subst. destruct Hin as [E|Hin].
+  - inversion E; subst. rewrite idx_eqb_refl. f_equal. now apply collect_notin.
+  - rewrite idx_eqb_neq; auto. intros E. subst j. apply Hj. change i with (fst (i, v)). now apply in_map.
+Qed.
+
+Lemma collect_entries (A : sparse V) i : wfs A ->
+  collect i (entries A) = if mem i (ssubs A) then [den A i] else [].
+Proof.
+  intros W. destruct (mem i (ssubs A)) eqn:Hm.
+  - apply mem_spec in Hm. apply collect_in; [now apply NoDup_fst_entries|]. now apply in_subs_entry.
+  - apply mem_false in Hm. apply collect_notin. destruct W as (HL & _). now rewrite map_fst_entries.
+Qed.
+
+Lemma combine_app {A B} (l1 l2 : list A) (m1 m2 : list B) : length l1 = length m1 ->
+  combine (l1 ++ l2) (m1 ++ m2) = combine l1 m1 ++ combine l2 m2.
+Proof.
+  revert m1; induction l1 as [|a l1 IH]; intros [|b m1] H; cbn in *; try discriminate; auto.
+  f_equal. apply IH. lia.
+Qed.
+
+Lemma mem_app i l1 l2 : mem i (l1 ++ l2) = mem i l1 || mem i l2.
+Proof. unfold mem. apply existsb_app. Qed.
+
+Theorem from_aggregator_correct (func : list V -> V) s subs vals :
+  (forall i, In i subs -> inb s i = true) ->
+  wf (from_aggregator isz func s subs vals) /\ sshape (from_aggregator isz func s subs vals) = s /\
+  forall i, den (from_aggregator isz func s subs vals) i =
+            if mem i subs then func (collect i (combine subs vals)) else v0.
+Proof.
+  intros Hb. unfold from_aggregator.
+  set (es' := map (fun i => (i, func (collect i (combine subs vals)))) (uniq_rows subs)).
+  assert (Hfst : map fst es' = uniq_rows subs).
+  { unfold es'. rewrite map_map. cbn. apply map_id. }
+  assert (Hn : NoDup (map fst es')) by (rewrite Hfst; apply NoDup_uniq_rows).
+  split; [|split; [reflexivity|]].
+  - apply wf_of_drop; auto. intros e He. apply Hb. apply in_uniq_rows. rewrite <- Hfst. now apply in_map.
+  - intros i. destruct (mem i subs) eqn:Hm.
+    + apply mem_spec in Hm. apply den_of_drop_in; auto. unfold es'. apply in_map_iff. exists i. split; auto.
+      now apply in_uniq_rows.
+    + apply mem_false in Hm. apply den_of_drop_notin. rewrite Hfst. now rewrite in_uniq_rows.
+Qed.
+
+(* two structurally well-formed coordinate lists stacked and aggregated *)
+Lemma agg2_correct (func : list V -> V) (A B : sparse V) : wfs A -> wfs B -> sshape B = sshape A ->
+  let R := from_aggregator isz func (sshape A) (ssubs A ++ ssubs B) (svals A ++ svals B) in
+  wf R /\ sshape R = sshape A /\
+  forall i, den R i = if mem i (ssubs A) || mem i (ssubs B)
+                      then func ((if mem i (ssubs A) then [den A i] else []) ++ (if mem i (ssubs B) then [den B i] else []))
+                      else v0.
+Proof.
+  intros WA WB Hs R.
+  destruct (from_aggregator_correct func (sshape A) (ssubs A ++ ssubs B) (svals A ++ svals B)) as (W & S & D).
+  { intros i Hi. apply in_app_iff in Hi as [Hi|Hi]; [now apply wf_inb|]. rewrite <- Hs. now apply wf_inb. }
+  split; [exact W|split; [exact S|]]. intros i. unfold R. rewrite D, mem_app.
+  rewrite combine_app by (now destruct WA). fold (entries A) (entries B).
+  now rewrite collect_app, !collect_entries.
+Qed.
+
+(* ------------------------------------------------------------------------------------------ *)
+(* + and - of two sparse tensors                                                               *)
+(* ------------------------------------------------------------------------------------------ *)
+Section AddSub.
+Variables (vadd : V -> V -> V) (vopp : V -> V).
+Hypothesis vadd_0_l : forall x, vadd v0 x = x.
+Hypothesis vadd_0_r : forall x, vadd x v0 = x.
+
+Theorem impl_add_correct (A B : sparse V) : wf A -> wf B -> sshape B = sshape A ->
+  wf (impl_add v0 isz vadd A B) /\ sshape (impl_add v0 isz vadd A B) = sshape A /\
+  forall i, den (impl_add v0 isz vadd A B) i = vadd (den A i) (den B i).
+Proof.
+  intros WA WB Hs.
+  destruct (agg2_correct (vsum v0 vadd) A B (wf_sp_struct isz A WA) (wf_sp_struct isz B WB) Hs) as (W & S & D).
+  split; [exact W|split; [exact S|]]. intros i. unfold impl_add. rewrite D.
+  destruct (mem i (ssubs A)) eqn:HA, (mem i (ssubs B)) eqn:HB; cbn.
+  - now rewrite vadd_0_r.
+  - apply mem_false in HB. rewrite (den_sp_notin v0 B i HB). now rewrite !vadd_0_r.
+  - apply mem_false in HA. rewrite (den_sp_notin v0 A i HA). now rewrite vadd_0_r, vadd_0_l.
+  - apply mem_false in HA, HB. rewrite (den_sp_notin v0 A i HA), (den_sp_notin v0 B i HB). now rewrite vadd_0_l.
+Qed.
+
+Hypothesis vopp_nz : forall v, v <> v0 -> vopp v <> v0.
+Hypothesis vopp_0 : vopp v0 = v0.
+
+Theorem impl_sub_correct (A B : sparse V) : wf A -> wf B -> sshape B = sshape A ->
+  wf (impl_sub v0 isz vadd vopp A B) /\ sshape (impl_sub v0 isz vadd vopp A B) = sshape A /\
+  forall i, den (impl_sub v0 isz vadd vopp A B) i = vadd (den A i) (vopp (den B i)).
+Proof.
+  intros WA WB Hs.
+  destruct (impl_neg_correct vopp vopp_nz vopp_0 B WB) as (WN & SN & DN).
+  destruct (impl_add_correct A (impl_neg vopp B) WA WN) as (W & S & D); [now rewrite SN|].
+  split; [exact W|split; [exact S|]]. intros i. rewrite <- DN. apply D.
+Qed.
+End AddSub.
+
+(* ------------------------------------------------------------------------------------------ *)
+(* logical and / or / xor of two sparse tensors                                                *)
+(* ------------------------------------------------------------------------------------------ *)
+Section Logic.
+Variable one : V.
+Hypothesis one_nz : one <> v0.
+Notation nz x := (negb (isz x)).
+Notation bv := (bval v0 one).
+
+Theorem impl_and_correct (A B : sparse V) : wf A -> wf B -> sshape B = sshape A ->
+  wf (impl_and v0 isz one A B) /\ sshape (impl_and v0 isz one A B) = sshape A /\
+  forall i, den (impl_and v0 isz one A B) i = bv (nz (den A i) && nz (den B i)).
+Proof.
+  intros WA WB Hs.
+  destruct (agg2_correct (fun l => bv (Nat.eqb (length l) 2)) A B (wf_sp_struct isz A WA) (wf_sp_struct isz B WB) Hs) as (W & S & D).
+  split; [exact W|split; [exact S|]]. intros i. unfold impl_and. rewrite D.
+  rewrite <- !mem_subs by auto. destruct (mem i (ssubs A)), (mem i (ssubs B)); reflexivity.
+Qed.
+
+Lemma wfs_ones (A : sparse V) : wfs A -> wfs (impl_ones one A).
+Proof. intros (HL & Hn & Hb). unfold wf_struct, impl_ones, sp_const. cbn. repeat split; auto. now rewrite map_length. Qed.
+
+Lemma agg_ones (func : list V -> V) (A B : sparse V) : wf A -> wf B -> sshape B = sshape A ->
+  let R := from_aggregator isz func (sshape A) (ssubs A ++ ssubs B) (map (fun _ => one) (ssubs A ++ ssubs B)) in
+  wf R /\ sshape R = sshape A /\
+  forall i, den R i = if mem i (ssubs A) || mem i (ssubs B)
+                      then func ((if mem i (ssubs A) then [one] else []) ++ (if mem i (ssubs B) then [one] else []))
+                      else v0.
+Proof.
+  intros WA WB Hs R.
+  pose proof (wfs_ones A (wf_sp_struct isz A WA)) as WA1. pose proof (wfs_ones B (wf_sp_struct isz B WB)) as WB1.
+  destruct (agg2_correct func (impl_ones one A) (impl_ones one B) WA1 WB1) as (W & S & D); [cbn; auto|].
+  cbn [impl_ones sp_const ssubs svals sshape] in W, S, D. rewrite <- map_app in W, S, D.
+  split; [exact W|split; [exact S|]]. intros i. unfold R. rewrite D.
+  destruct WA as (_ & HnA & _). destruct WB as (_ & HnB & _).
+  unfold impl_ones. rewrite !den_sp_const by auto.
+  destruct (mem i (ssubs A)), (mem i (ssubs B)); reflexivity.
+Qed.
+
+Theorem impl_or_correct (A B : sparse V) : wf A -> wf B -> sshape B = sshape A ->
+  wf (impl_or v0 isz one A B) /\ sshape (impl_or v0 isz one A B) = sshape A /\
+  forall i, den (impl_or v0 isz one A B) i = bv (nz (den A i) || nz (den B i)).
+Proof.
+  intros WA WB Hs. destruct (agg_ones (fun l => bv (Nat.leb 1 (length l))) A B WA WB Hs) as (W & S & D).
+  split; [exact W|split; [exact S|]]. intros i. unfold impl_or. rewrite D.
+  rewrite <- !mem_subs by auto. destruct (mem i (ssubs A)), (mem i (ssubs B)); reflexivity.
+Qed.
+
+Theorem impl_xor_correct (A B : sparse V) : wf A -> wf B -> sshape B = sshape A ->
+  wf (impl_xor v0 isz one A B) /\ sshape (impl_xor v0 isz one A B) = sshape A /\
+  forall i, den (impl_xor v0 isz one A B) i = bv (xorb (nz (den A i)) (nz (den B i))).
+Proof.
+  intros WA WB Hs. destruct (agg_ones (fun l => bv (Nat.eqb (length l) 1)) A B WA WB Hs) as (W & S & D).
+  split; [exact W|split; [exact S|]]. intros i. unfold impl_xor. rewrite D.
+  rewrite <- !mem_subs by auto. destruct (mem i (ssubs A)), (mem i (ssubs B)); reflexivity.
+Qed.
+
+Theorem impl_and_scalar_correct (A : sparse V) (c : V) : wf A ->
+  wf (impl_and_scalar isz one A c) /\ sshape (impl_and_scalar isz one A c) = sshape A /\
+  forall i, den (impl_and_scalar isz one A c) i = bv (nz (den A i) && nz c).
+Proof.
+  intros WA. unfold impl_and_scalar. destruct (isz c) eqn:Hc.
+  - split; [|split; [reflexivity|]].
+    + unfold wf_sp. cbn. repeat split; auto. constructor.
+    + intros i. rewrite andb_false_r. reflexivity.
+  - destruct (impl_ones_correct one A one_nz WA) as (W & S & D). split; [exact W|split; [exact S|]].
+    intros i. rewrite D. now rewrite andb_true_r.
+Qed.
+
+(* a constant-1 tensor on a subscript list characterised by a predicate *)
+Lemma sp_const_char s subs (P : idx -> bool) :
+  NoDup subs -> (forall i, In i subs -> inb s i = true) ->
+  (forall i, inb s i = true -> (In i subs <-> P i = true)) ->
+  wf (sp_const s subs one) /\ forall i, inb s i = true -> den (sp_const s subs one) i = bv (P i).
+Proof.
+  intros Hn Hb Hc. split; [now apply wf_sp_const|]. intros i Hi. rewrite den_sp_const by auto.
+  destruct (mem i subs) eqn:Hm.
+  - apply mem_spec, Hc in Hm; auto. now rewrite Hm.
+  - apply mem_false in Hm. destruct (P i) eqn:HP; auto. exfalso. apply Hm. now apply Hc.
+Qed.
+
+Lemma in_fst_filter_entries (A : sparse V) (p : idx * V -> bool) i : wfs A ->
+  (In i (map fst (filter p (entries A))) <-> In i (ssubs A) /\ p (i, den A i) = true).
+Proof.
+  intros W. rewrite in_map_iff. split.
+  - intros ([j v] & Ej & He). cbn in Ej. subst j. apply filter_In in He as [He Hp].
+    rewrite (den_struct_in v0 A i v W He). split; auto. unfold entries in He. now apply in_combine_l in He.
+  - intros [Hi Hp]. exists (i, den A i). split; auto. apply filter_In. split; auto. now apply in_subs_entry.
+Qed.
+
+(* comparison with a scalar: every position of the shape, implicit zeros included *)
+Theorem impl_cmp_scalar_correct (cmp : V -> V -> bool) (A : sparse V) (c : V) : wf A ->
+  wf (impl_cmp_scalar v0 one cmp A c) /\ sshape (impl_cmp_scalar v0 one cmp A c) = sshape A /\
+  forall i, inb (sshape A) i = true -> den (impl_cmp_scalar v0 one cmp A c) i = bv (cmp (den A i) c).
+Proof.
+  intros WA. pose proof (wf_sp_struct isz A WA) as Ws. unfold impl_cmp_scalar.
+  set (subs1 := map fst (filter (fun e => cmp (snd e) c) (entries A))).
+  set (subs2 := if cmp v0 c then zero_subs A else []).
+  assert (H1 : forall i, In i subs1 <-> In i (ssubs A) /\ cmp (den A i) c = true).
+  { intros i. unfold subs1. now rewrite in_fst_filter_entries. }
+  assert (H2 : forall i, In i subs2 <-> cmp v0 c = true /\ inb (sshape A) i = true /\ ~ In i (ssubs A)).
+  { intros i. unfold subs2. destruct (cmp v0 c); [rewrite in_zero_subs; tauto|cbn; split; [tauto|intros [? _]; discriminate]]. }
+  destruct (sp_const_char (sshape A) (subs1 ++ subs2) (fun i => cmp (den A i) c)) as (W & D).
+  - apply NoDup_app_intro.
+    + unfold subs1. apply NoDup_map_fst_filter. now apply NoDup_fst_entries.
+    + unfold subs2. destruct (cmp v0 c); [apply NoDup_zero_subs|constructor].
+    + intros i Hi1 Hi2. apply H1 in Hi1. apply H2 in Hi2. tauto.
+  - intros i Hi. apply in_app_iff in Hi as [Hi|Hi]; [apply H1 in Hi; now apply wf_inb|apply H2 in Hi; tauto].
+  - intros i Hi. rewrite in_app_iff, H1, H2.
+    destruct (in_dec idx_dec i (ssubs A)) as [Hin|Hout]; [tauto|].
+    rewrite (den_sp_notin v0 A i Hout). tauto.
+  - split; [exact W|split; [reflexivity|exact D]].
+Qed.
+
+(* comparison of two sparse tensors *)
+Theorem impl_cmp_correct (cmp : V -> V -> bool) (A B : sparse V) : wf A -> wf B -> sshape B = sshape A ->
+  wf (impl_cmp v0 one cmp A B) /\ sshape (impl_cmp v0 one cmp A B) = sshape A /\
+  forall i, inb (sshape A) i = true -> den (impl_cmp v0 one cmp A B) i = bv (cmp (den A i) (den B i)).
+Proof.
+  intros WA WB Hs. pose proof (wf_sp_struct isz A WA) as WsA. pose proof (wf_sp_struct isz B WB) as WsB.
+  unfold impl_cmp.
+  set (subs1 := filter (fun i => cmp (den A i) v0) (rows_diff (ssubs A) (ssubs B))).
+  set (subs2 := filter (fun i => cmp v0 (den B i)) (rows_diff (ssubs B) (ssubs A))).
+  set (subs3 := filter (fun i => cmp (den A i) (den B i)) (rows_inter (ssubs A) (ssubs B))).
+  set (subs4 := if cmp v0 v0 then rows_inter (zero_subs A) (zero_subs B) else []).
+  assert (H1 : forall i, In i subs1 <-> (In i (ssubs A) /\ ~ In i (ssubs B)) /\ cmp (den A i) v0 = true).
+  { intros i. unfold subs1, rows_diff. rewrite !filter_In, negb_true_iff, mem_false. tauto. }
+  assert (H2 : forall i, In i subs2 <-> (In i (ssubs B) /\ ~ In i (ssubs A)) /\ cmp v0 (den B i) = true).
+  { intros i. unfold subs2, rows_diff. rewrite !filter_In, negb_true_iff, mem_false. tauto. }
+  assert (H3 : forall i, In i subs3 <-> (In i (ssubs A) /\ In i (ssubs B)) /\ cmp (den A i) (den B i) = true).
+  { intros i. unfold subs3, rows_inter. rewrite !filter_In, mem_spec. tauto. }
+  assert (H4 : forall i, In i subs4 <-> cmp v0 v0 = true /\ inb (sshape A) i = true /\ ~ In i (ssubs A) /\ ~ In i (ssubs B)).
+  { intros i. unfold subs4. destruct (cmp v0 v0).
+    - unfold rows_inter. rewrite filter_In, mem_spec, !in_zero_subs, Hs. tauto.
+    - cbn. split; [tauto|intros [? _]; discriminate]. }
+  assert (N1 : NoDup subs1) by (apply NoDup_filter, NoDup_filter; now destruct WsA as (_ & ? & _)).
+  assert (N2 : NoDup subs2) by (apply NoDup_filter, NoDup_filter; now destruct WsB as (_ & ? & _)).
+  assert (N3 : NoDup subs3) by (apply NoDup_filter, NoDup_filter; now destruct WsA as (_ & ? & _)).
+  assert (N4 : NoDup subs4) by (unfold subs4; destruct (cmp v0 v0); [apply NoDup_filter, NoDup_zero_subs|constructor]).
+  destruct (sp_const_char (sshape A) (subs1 ++ subs2 ++ subs3 ++ subs4) (fun i => cmp (den A i) (den B i))) as (W & D).
+  - apply NoDup_app_intro; auto; [apply NoDup_app_intro; auto; [apply NoDup_app_intro; auto|]|].
+    + intros i Hi3 Hi4. apply H3 in Hi3. apply H4 in Hi4. tauto.
+    + intros i Hi2 Hi. apply H2 in Hi2. apply in_app_iff in Hi as [Hi|Hi]; [apply H3 in Hi|apply H4 in Hi]; tauto.
+    + intros i Hi1 Hi. apply H1 in Hi1. rewrite !in_app_iff in Hi.
+      destruct Hi as [Hi|[Hi|Hi]]; [apply H2 in Hi|apply H3 in Hi|apply H4 in Hi]; tauto.
+  - intros i Hi. rewrite !in_app_iff in Hi. destruct Hi as [Hi|[Hi|[Hi|Hi]]].
+    + apply H1 in Hi. apply wf_inb; tauto.
+    + apply H2 in Hi. rewrite <- Hs. apply wf_inb; tauto.
+    + apply H3 in Hi. apply wf_inb; tauto.
+    + apply H4 in Hi. tauto.
+  - intros i Hi. rewrite !in_app_iff, H1, H2, H3, H4.
+    destruct (in_dec idx_dec i (ssubs A)) as [HA|HA], (in_dec idx_dec i (ssubs B)) as [HB|HB];
+      try rewrite (den_sp_notin v0 A i HA); try rewrite (den_sp_notin v0 B i HB); tauto.
+  - split; [exact W|split; [reflexivity|exact D]].
+Qed.
+
+(* comparison with a dense tensor *)
+Theorem impl_cmp_dense_correct (cmp : V -> V -> bool) (A : sparse V) (T : dense V) : wf A ->
+  wf (impl_cmp_dense v0 one cmp A T) /\ sshape (impl_cmp_dense v0 one cmp A T) = sshape A /\
+  forall i, inb (sshape A) i = true -> den (impl_cmp_dense v0 one cmp A T) i = bv (cmp (den A i) (den_dense v0 T i)).
+Proof.
+  intros WA. pose proof (wf_sp_struct isz A WA) as Ws. unfold impl_cmp_dense.
+  set (subs1 := filter (fun i => cmp v0 (den_dense v0 T i)) (zero_subs A)).
+  set (subs2 := map fst (filter (fun e => cmp (snd e) (den_dense v0 T (fst e))) (entries A))).
+  assert (H1 : forall i, In i subs1 <-> (inb (sshape A) i = true /\ ~ In i (ssubs A)) /\ cmp v0 (den_dense v0 T i) = true).
+  { intros i. unfold subs1. now rewrite filter_In, in_zero_subs. }
+  assert (H2 : forall i, In i subs2 <-> In i (ssubs A) /\ cmp (den A i) (den_dense v0 T i) = true).
+  { intros i. unfold subs2. now rewrite in_fst_filter_entries. }
+  destruct (sp_const_char (sshape A) (subs1 ++ subs2) (fun i => cmp (den A i) (den_dense v0 T i))) as (W & D).
+  - apply NoDup_app_intro.
+    + apply NoDup_filter, NoDup_zero_subs.
+    + unfold subs2. apply NoDup_map_fst_filter. now apply NoDup_fst_entries.
+    + intros i Hi1 Hi2. apply H1 in Hi1. apply H2 in Hi2. tauto.
+  - intros i Hi. apply in_app_iff in Hi as [Hi|Hi]; [apply H1 in Hi; tauto|apply H2 in Hi; apply wf_inb; tauto].
+  - intros i Hi. rewrite in_app_iff, H1, H2.
+    destruct (in_dec idx_dec i (ssubs A)) as [Hin|Hout]; [tauto|].
+    rewrite (den_sp_notin v0 A i Hout). tauto.
+  - split; [exact W|split; [reflexivity|exact D]].
+Qed.
+End Logic.
+
+(* ------------------------------------------------------------------------------------------ *)
+(* entry-wise maps of the stored entries: * (scalar, dense, sparse), elemfun                    *)
+(* ------------------------------------------------------------------------------------------ *)
+Lemma map_entries_correct (h : idx -> V -> V) (p : idx -> bool) (A : sparse V) : wfs A ->
+  let R := of_entries (sshape A) (drop_zeros isz (map (fun e => (fst e, h (fst e) (snd e)))
+                                                   (filter (fun e => p (fst e)) (entries A)))) in
+  wf R /\ sshape R = sshape A /\
+  forall i, den R i = if mem i (ssubs A) && p i then h i (den A i) else v0.
+Proof.
+  intros W. cbv zeta.
+  set (es := filter (fun e => p (fst e)) (entries A)).
+  set (es' := map (fun e => (fst e, h (fst e) (snd e))) es).
+  assert (Hfst : map fst es' = map fst es) by (unfold es'; now rewrite map_map).
+  assert (Hn : NoDup (map fst es')).
+  { rewrite Hfst. unfold es. apply NoDup_map_fst_filter. now apply NoDup_fst_entries. }
+  split; [|split; [reflexivity|]].
+  - apply wf_of_drop; auto. intros e He. apply in_map_iff in He as (e0 & <- & He0). cbn.
+    apply filter_In in He0 as [He0 _]. now apply in_entries_inb.
+  - intros i. destruct (mem i (ssubs A) && p i) eqn:Hc.
+    + apply andb_true_iff in Hc as [Hm Hp]. apply mem_spec in Hm.
+      apply den_of_drop_in; auto. apply in_map_iff. exists (i, den A i). split; auto.
+      apply filter_In. split; auto. now apply in_subs_entry.
+    + apply den_of_drop_notin. rewrite Hfst. intros Hin. apply in_map_iff in Hin as ([j v] & Ej & He).
+      cbn in Ej. subst j. apply filter_In in He as [He Hp]. cbn in Hp.
+      unfold entries in He. apply in_combine_l in He. apply mem_spec in He. rewrite He, Hp in Hc. discriminate.
+Qed.
+
+Section Mul.
+Variable vmul : V -> V -> V.
+Hypothesis vmul_0_l : forall x, vmul v0 x = v0.
+Hypothesis vmul_0_r : forall x, vmul x v0 = v0.
+
+Theorem impl_mul_scalar_correct (A : sparse V) (c : V) : wf A ->
+  wf (impl_mul_scalar isz vmul A c) /\ sshape (impl_mul_scalar isz vmul A c) = sshape A /\
+  forall i, den (impl_mul_scalar isz vmul A c) i = vmul (den A i) c.
+Proof.
+  intros WA. pose proof (wf_sp_struct isz A WA) as Ws.
+  destruct (map_entries_correct (fun _ v => vmul v c) (fun _ => true) A Ws) as (W & S & D).
+  unfold impl_mul_scalar. cbv beta in W, S, D. rewrite filter_K_true in W, S, D.
+  split; [exact W|split; [exact S|]]. intros i. rewrite D, andb_true_r.
+  destruct (mem i (ssubs A)) eqn:Hm; auto. apply mem_false in Hm. now rewrite (den_sp_notin v0 A i Hm).
+Qed.
+
+Theorem impl_mul_dense_correct (A : sparse V) (T : dense V) : wf A ->
+  wf (impl_mul_dense v0 isz vmul A T) /\ sshape (impl_mul_dense v0 isz vmul A T) = sshape A /\
+  forall i, den (impl_mul_dense v0 isz vmul A T) i = vmul (den A i) (den_dense v0 T i).
+Proof.
+  intros WA. pose proof (wf_sp_struct isz A WA) as Ws.
+  destruct (map_entries_correct (fun i v => vmul v (den_dense v0 T i)) (fun _ => true) A Ws) as (W & S & D).
+  unfold impl_mul_dense. cbv beta in W, S, D. rewrite filter_K_true in W, S, D.
+  split; [exact W|split; [exact S|]]. intros i. rewrite D, andb_true_r.
+  destruct (mem i (ssubs A)) eqn:Hm; auto. apply mem_false in Hm. now rewrite (den_sp_notin v0 A i Hm).
+Qed.
+
+Theorem impl_mul_correct (A B : sparse V) : wf A -> wf B -> sshape B = sshape A ->
+  wf (impl_mul v0 isz vmul A B) /\ sshape (impl_mul v0 isz vmul A B) = sshape A /\
+  forall i, den (impl_mul v0 isz vmul A B) i = vmul (den A i) (den B i).
+Proof.
+  intros WA WB Hs. pose proof (wf_sp_struct isz A WA) as Ws.
+  destruct (map_entries_correct (fun i v => vmul v (den B i)) (fun i => mem i (ssubs B)) A Ws) as (W & S & D).
+  split; [exact W|split; [exact S|]]. intros i. unfold impl_mul. rewrite D.
+  destruct (mem i (ssubs A)) eqn:HA, (mem i (ssubs B)) eqn:HB; cbn; auto.
+  - apply mem_false in HB. now rewrite (den_sp_notin v0 B i HB).
+  - apply mem_false in HA. now rewrite (den_sp_notin v0 A i HA).
+  - apply mem_false in HA. now rewrite (den_sp_notin v0 A i HA).
+Qed.
+End Mul.
+
+(* elemfun acts on the stored nonzeros only; zero results are not stored *)
+Theorem impl_elemfun_correct (g : V -> V) (A : sparse V) : wf A ->
+  wf (impl_elemfun isz g A) /\ sshape (impl_elemfun isz g A) = sshape A /\
+  forall i, den (impl_elemfun isz g A) i = if isz (den A i) then v0 else g (den A i).
+Proof.
+  intros WA. pose proof (wf_sp_struct isz A WA) as Ws.
+  destruct (map_entries_correct (fun _ v => g v) (fun _ => true) A Ws) as (W & S & D).
+  unfold impl_elemfun. cbv beta in W, S, D. rewrite filter_K_true in W, S, D.
+  split; [exact W|split; [exact S|]]. intros i. rewrite D, andb_true_r, mem_subs by auto.
+  now destruct (isz (den A i)).
+Qed.
+
+
+(* ------------------------------------------------------------------------------------------ *)
+(* operators that answer with a dense tensor: full() then the dense element-wise operator       *)
+(* ------------------------------------------------------------------------------------------ *)
+Lemma den_full_nth (A : sparse V) i : wfs A -> inb (sshape A) i = true ->
+  nth (sub2ind (sshape A) i) (ddata (full v0 A)) v0 = den A i.
+Proof.
+  intros (_ & _ & Hb) Hi. rewrite <- (den_full v0 A i Hb). unfold den_dense. cbn [dshape full]. now rewrite Hi.
+Qed.
+
+Theorem impl_dense_scalar_correct {W} (w0 : W) (f : V -> V -> W) (A : sparse V) (c : V) : wfs A ->
+  wf_dense (impl_dense_scalar v0 f A c) /\ dshape (impl_dense_scalar v0 f A c) = sshape A /\
+  forall i, inb (sshape A) i = true -> den_dense w0 (impl_dense_scalar v0 f A c) i = f (den A i) c.
+Proof.
+  intros Ws. pose proof (wf_full v0 A) as WF. unfold wf_dense in WF. cbn [dshape full] in WF.
+  split; [|split; [reflexivity|]].
+  - unfold wf_dense, impl_dense_scalar. cbn [dshape ddata]. now rewrite map_length.
+  - intros i Hi. unfold den_dense, impl_dense_scalar. cbn [dshape ddata]. rewrite Hi.
+    pose proof (sub2ind_lt _ _ Hi) as Hlt.
+    rewrite (nth_indep _ w0 (f v0 c)) by (rewrite map_length; cbn [ddata full] in *; lia).
+    rewrite (map_nth (fun v => f v c)). now rewrite den_full_nth.
+Qed.
+
+Theorem impl_dense_dense_correct {W} (w0 : W) (f : V -> V -> W) (A : sparse V) (T : dense V) :
+  wfs A -> wf_dense T -> dshape T = sshape A ->
+  wf_dense (impl_dense_dense v0 f A T) /\ dshape (impl_dense_dense v0 f A T) = sshape A /\
+  forall i, inb (sshape A) i = true -> den_dense w0 (impl_dense_dense v0 f A T) i = f (den A i) (den_dense v0 T i).
+Proof.
+  intros Ws WT Hs. pose proof (wf_full v0 A) as WF. unfold wf_dense in WF, WT. cbn [dshape full] in WF.
+  rewrite Hs in WT.
+  split; [|split; [reflexivity|]].
+  - unfold wf_dense, impl_dense_dense. cbn [dshape ddata]. rewrite map_length, combine_length. cbn [ddata full] in *. lia.
+  - intros i Hi. unfold den_dense at 1. unfold impl_dense_dense. cbn [dshape ddata]. rewrite Hi.
+    pose proof (sub2ind_lt _ _ Hi) as Hlt.
+    rewrite (nth_indep _ w0 ((fun p => f (fst p) (snd p)) (v0, v0)))
+      by (rewrite map_length, combine_length; cbn [ddata full] in *; lia).
+    rewrite (map_nth (fun p => f (fst p) (snd p))). rewrite combine_nth by (cbn [ddata full] in *; lia).
+    cbn [fst snd]. rewrite den_full_nth by auto. unfold den_dense. now rewrite Hs, Hi.
+Qed.
 
 End Proofs.
